@@ -421,6 +421,14 @@ func configure(g *gen) {
 		Exts: []Ext{{Callee: "combineHandlers", Value: "(%1 ++ %2)", T: T{"opaque", "List Nat"}}}})
 	add(FnSpec{Recv: "Router", Func: "Use", Lean: "Router.Use"})
 	add(FnSpec{Recv: "Route", Func: "Use", Lean: "Route.Use", UseStructs: []string{"Route"}})
+	// route.go: the getters of Route and of Params
+	for _, n := range []string{"Name", "Path", "Methods", "MethodString", "Handler", "Handlers"} {
+		add(FnSpec{Recv: "Route", Func: n, Lean: "Route." + n, UseStructs: []string{"Route"}, Types: map[string]T{"rux.HandlerFunc": {"opaque", "Option Nat"}}})
+	}
+	pT := map[string]T{"rux.Params": {"opaque", "Option GoRt.KV"}}
+	pExts := []Ext{{Callee: "$[]", Values: []string{"(GoRt.kvGetO $ %1).1", "(GoRt.kvGetO $ %1).2"}, Ts: []T{tStr, tBool}}}
+	add(FnSpec{Recv: "Params", Func: "Has", Lean: "Params.Has", Types: pT, Exts: pExts})
+	add(FnSpec{Recv: "Params", Func: "String", Lean: "Params.String", Types: pT, Exts: pExts})
 	// router.go: the registration entry points.  `appendRoute` (checks, group info, pattern compilation, table insertion —
 	// translated and tied on its own) is the parameter `appendRoute`: it may panic and returns the router and the route as
 	// it left them.  `GET` … `CONNECT`, `Add`, `AddNamed`, `Any` build the route with the generated constructors.
@@ -483,6 +491,14 @@ func configure(g *gen) {
 		{Callee: "$.data[]=", Effect: "{ $ with data := GoRt.dataPut $.data %1 %2 }"},
 		{Callee: "$.data[]", Values: []string{"(GoRt.dataGet $.data %1).1", "(GoRt.dataGet $.data %1).2"}, Ts: []T{{"opaque", "GoRt.DV"}, tBool}},
 	}
+	// `Copy`: a context for use after the request — the caller's fields except the chain (nil), the cursor (aborted) and
+	// the writer below (`ctx.writer.Writer = nil`; `Resp` points at the copy's own writer)
+	add(FnSpec{Recv: "Context", Func: "Copy", Lean: "Ctx.Copy", Exts: []Ext{
+		{Callee: "ctx.writer.Writer=", Stmts: []string{"ctx := { ctx with writer := { ctx.writer with log := [] } }"}},
+		{Callee: "ctx.Resp=&ctx.writer", Stmts: []string{"ctx := { ctx with respOwn := true }"}},
+	}})
+	add(FnSpec{Recv: "Context", Func: "Param", Lean: "Ctx.Param", Exts: []Ext{
+		{Callee: "$.Params.String", Value: "(Gen.Params.String $.params %1)", T: tStr}}})
 	add(FnSpec{Recv: "Context", Func: "AddError", Lean: "Ctx.AddError", Types: map[string]T{"error": {"opaque", "Option Nat"}}})
 	add(FnSpec{Recv: "Context", Func: "FirstError", Lean: "Ctx.FirstError", Types: map[string]T{"error": {"opaque", "Option Nat"}}})
 	for _, n := range []string{"Set", "Get", "SafeGet", "Data"} {
@@ -652,6 +668,19 @@ func configure(g *gen) {
 			{Callee: "Text", Stmts: []string{"let %t := Gen.renderText %1 %2 wans", "w := %t.1"}, Value: "%t.2", T: T{"opaque", "Bool"}},
 			{Callee: "TextBytes", Stmts: []string{"let %t := Gen.renderTextBytes %1 %2 wans", "w := %t.1"}, Value: "%t.2", T: T{"opaque", "Bool"}},
 		}, hwExts...)})
+	// json.go / xml.go: the package-level wrappers construct the renderer value and call its Render
+	for _, w := range [][3]string{{"JSON", "renderJSON", "JSONRenderer"}, {"JSONIndented", "renderJSONIndented", "JSONRenderer"}, {"XML", "renderXML", "XMLRenderer"}, {"XMLPretty", "renderXMLPretty", "XMLRenderer"}} {
+		add(FnSpec{Pkg: "pkg/render", Func: w[0], Lean: w[1], UseStructs: []string{w[2]}, MutParams: []string{"w"},
+			Extra:    []string{"(wans : GoRt.HW → Bool)", "(encode : GoRt.JEnc → GoRt.HW → GoRt.HW × Bool)", "(prettyIndent : Bytes)"},
+			RetExtra: []string{"w"}, RetExtraT: []string{"GoRt.HW"}, Types: encTypes,
+			Exts: []Ext{
+				{Callee: "PrettyIndent", Value: "prettyIndent", T: tStr},
+				{Callee: "JSONRenderer{}.Render", Stmts: []string{"let %t := Gen.JSONR.Render (default : JSONR) %1 %2 wans encode", "w := %t.1"}, Value: "%t.2", T: T{"opaque", "Bool"}},
+				{Callee: "JSONRenderer{Indent: PrettyIndent}.Render", Stmts: []string{"let %t := Gen.JSONR.Render { (default : JSONR) with indent := prettyIndent } %1 %2 wans encode", "w := %t.1"}, Value: "%t.2", T: T{"opaque", "Bool"}},
+				{Callee: "XMLRenderer{}.Render", Stmts: []string{"let %t := Gen.XMLR.Render (default : XMLR) %1 %2 wans encode", "w := %t.1"}, Value: "%t.2", T: T{"opaque", "Bool"}},
+				{Callee: "XMLRenderer{Indent: PrettyIndent}.Render", Stmts: []string{"let %t := Gen.XMLR.Render { (default : XMLR) with indent := prettyIndent } %1 %2 wans encode", "w := %t.1"}, Value: "%t.2", T: T{"opaque", "Bool"}},
+			}})
+	}
 	add(FnSpec{Pkg: "pkg/render", Func: "Auto", Lean: "renderAuto", MutParams: []string{"w"},
 		Extra:    []string{"(env : GoRt.RAEnv GoRt.HW)", "(fallbackType : Bytes)"},
 		RetExtra: []string{"w"}, RetExtraT: []string{"GoRt.HW"},
